@@ -17,6 +17,7 @@ import (
 	"verif/harness/internal/c09"
 	"verif/harness/internal/c10"
 	"verif/harness/internal/c14"
+	"verif/harness/internal/c15"
 	"verif/harness/internal/c16"
 	"verif/harness/internal/c17"
 	"verif/harness/internal/c18"
@@ -60,6 +61,8 @@ func main() {
 		err = sso.Run(prop, *out, *tier, *seed)
 	case "C14":
 		err = c14.Run(*out, *tier, *seed)
+	case "C15":
+		err = c15.Run(*out, *tier, *seed)
 	case "C16":
 		err = c16.Run(*out, *tier, *seed)
 	case "C17":
